@@ -265,6 +265,7 @@ def judge (_id : String) (lines : Array String) : Verdict := Id.run do
       -- explained by a recorded deviation?
       if clause == "stop-completes" then
         if devLoop input then return .known "loopback-stop-deadlock" detail
+        if devUdfFail input then return .known "udf-above-failed-node-blocks-stop" detail
         return .specfail clause detail
       if clause == "accepted-points-delivered" then
         if devInflux input && (pS.lostAt.any (fun p => (kinds[p.1]?.map (fun k => match k with | .influx _ => true | _ => false)).getD false)) then
